@@ -172,8 +172,14 @@ def check_release(program, rep):
         loop_tests = 0
         val_truth = None
         locks = evrules.HeldLocks(program)
+        queue_empty = False     # established on this path, nothing ran since
         for i, e in enumerate(tr):
             locks.feed(e)
+            if e.kind == 'call' and (e.func is None and not (
+                    dotted(e.sym.node.func) if isinstance(
+                        e.sym.node, ast.Call) else '') in (
+                            'bool', 'len', 'isinstance')):
+                queue_empty = False
             if e.kind == 'call' and evrules.is_delivery(e) and locks.held():
                 flag('termination', e.node,
                      f'callbacks are delivered while {locks.held()[0]} - a '
@@ -187,6 +193,11 @@ def check_release(program, rep):
                 enabled_known = False
             if e.kind == 'cond':
                 t = e.sym.text
+                if (t in (QUEUE, f'bool({QUEUE})', f'len({QUEUE})',
+                          f'len({QUEUE}) > 0', f'len({QUEUE}) != 0')
+                        and e.extra is False) or (
+                            t == f'len({QUEUE}) == 0' and e.extra is True):
+                    queue_empty = True
                 if t == FLAG:
                     enabled_known = bool(e.extra)
                 if t == val:
@@ -267,7 +278,7 @@ def check_release(program, rep):
             if e.kind == 'exc-edge':
                 n_exc += 1
         if ex.kind in ('fall', 'return') and val_truth is not False \
-                and loop_tests == 0:
+                and loop_tests == 0 and not queue_empty:
             flag('drain', ex.node or f.node,
                  'a path on which the dispatcher is being enabled returns '
                  'without reaching the release loop: events postponed earlier '
